@@ -211,7 +211,7 @@ Decode(t, m, inp, pos, ctx, consts) ==
              r == DecodeFields(t, m, inp, pos, pos, 1, lay, consts,
                                [vals |-> << >>, names |-> << >>, sizes |-> << >>, unit |-> << >>, fl |-> {}])
          IN IF ~r.ok THEN r
-            ELSE LET endp == IF m.align THEN AlignRel(r.pos, pos, AlignOf(t, m)) ELSE r.pos
+            ELSE LET endp == IF Aligned(t, m) THEN AlignRel(r.pos, pos, AlignOf(t, m)) ELSE r.pos
                  IN [r EXCEPT !.pos = endp, !.fl = r.fl \cup (IF endp > Len(inp) THEN {"lax"} ELSE {})]
 
 \* members of a union, each decoded at the union's start with the members before it as context
@@ -258,7 +258,7 @@ RunNeed(t, m, j) ==
   IF j > Len(t.fields) THEN 0
   ELSE LET f == t.fields[j]
            sz == IF f.bits > 0 THEN Storage(f.type).size ELSE SizeOf(f.type, m)
-       IN IF sz = Dyn THEN 0 ELSE sz + (IF m.align THEN AlignOf(f.type, m) - 1 ELSE 0) + RunNeed(t, m, j + 1)
+       IN IF sz = Dyn THEN 0 ELSE sz + (IF Aligned(t, m) THEN AlignOf(f.type, m) - 1 ELSE 0) + RunNeed(t, m, j + 1)
 
 \* st.unit: bits of the open storage unit, LSB first of the unit's integer (read in stream endianness)
 DecodeFields(t, m, inp, start, pos, i, lay, consts, st) ==
@@ -266,7 +266,7 @@ DecodeFields(t, m, inp, start, pos, i, lay, consts, st) ==
   THEN [ok |-> TRUE, err |-> "", v |-> [k |-> "struct", cls |-> t.name, names |-> st.names, vals |-> st.vals],
         pos |-> pos, sizes |-> st.sizes, fl |-> st.fl]
   ELSE LET f == t.fields[i]
-           a == IF m.align THEN AlignOf(f.type, m) ELSE 1
+           a == IF Aligned(t, m) THEN AlignOf(f.type, m) ELSE 1
            o == lay.offs[i]
            here == IF o >= 0 THEN start + o ELSE IF o = Cont THEN pos ELSE AlignRel(pos, start, a)
        IN IF f.bits > 0
@@ -341,7 +341,7 @@ EncX(t, m, v, pos, lg) ==
          LET lay == CLayout(t, m)
              body == EncFields(t, m, v, pos, 1, lay, NoBytes, [bits |-> << >>, mask |-> << >>, size |-> 0], lg)
              endp == pos + Len(body.b)
-         IN IF m.align THEN Cat(body, Pad(AlignRel(endp, pos, AlignOf(t, m)) - endp)) ELSE body
+         IN IF Aligned(t, m) THEN Cat(body, Pad(AlignRel(endp, pos, AlignOf(t, m)) - endp)) ELSE body
 
 \* a union's bytes: a bit is data if it is data in any member; coherent member values agree on shared bits
 EncUnion(t, m, v, pos, j, acc, lg) ==
@@ -376,7 +376,7 @@ EncFields(t, m, v, start, i, lay, out, bu, lg) ==
   IF i > Len(t.fields) THEN Cat(out, FlushUnit(bu, m))
   ELSE LET f == t.fields[i]
            val == v.vals[i]
-           a == IF m.align THEN AlignOf(f.type, m) ELSE 1
+           a == IF Aligned(t, m) THEN AlignOf(f.type, m) ELSE 1
            o == lay.offs[i]
        IN IF f.bits > 0
           THEN LET stg == Storage(f.type)
